@@ -11,8 +11,10 @@ TR_VALUES = {          # abstract id -> (twp, ns, rge, ew)
     6: (8, "N", 9, "E"),       # one-digit numbers, north-east
     7: (30, "S", 5, "W"),      # south-west
     8: (101, "S", 100, "E"),   # three-digit numbers
+    9: (0, "N", 5, "W"),       # township 0
+    10: (12, "S", 0, "E"),     # range 0
 }
-TR_POOL = [1, 2, 3, 4, 6, 7, 8]
+TR_POOL = [1, 2, 3, 4, 6, 7, 8, 9, 10]
 NS_WORD = {"N": ["N", "North", "N."], "S": ["S", "South", "S."]}
 EW_WORD = {"E": ["E", "East", "E."], "W": ["W", "West", "W."]}
 TR_TEMPLATES = [
